@@ -424,6 +424,9 @@ Definition chk_C03_hist := chk_hist mon_C03.
 Definition chk_C04_hist := chk_hist mon_C04.
 Definition chk_C05_hist := chk_hist mon_C05.
 Definition chk_C06_hist := chk_hist mon_C06.
+(* C18 at system level: the commission rate travels as decimal TEXT through CreatePair, the pair's instantiate message and
+   storage; what the pair describes afterwards is the number the text denotes (the creation clause of mon_C06) *)
+Definition chk_C18_hist := chk_hist mon_C06.
 Definition chk_C07_hist := chk_hist mon_C07.
 Definition chk_C09_hist := chk_hist mon_C09.
 Definition chk_C10_hist := chk_hist mon_C10.
